@@ -19,7 +19,7 @@ HX = {"release": os.path.join(HARNESS, "target", "release", "hx"),
 BINDIR = os.path.join(VERIF, ".build", "rawr")
 BIN = {"release": os.path.join(BINDIR, "release", "rawr"),
        "checked": os.path.join(BINDIR, "debug", "rawr")}
-ENV = dict(os.environ, CARGO_NET_OFFLINE="true")
+ENV = dict(os.environ, CARGO_NET_OFFLINE="true", MIMALLOC_ALLOW_LARGE_OS_PAGES="0")
 ALLOWED_AXIOMS = {"propext", "Classical.choice", "Quot.sound"}
 TRUSTED_BASE = [
     "Lean 4.33.0 kernel (axioms allowed: propext, Classical.choice, Quot.sound; no native_decide, no bv_decide, no own axioms)",
@@ -140,13 +140,30 @@ def props_modules(prop):
 
 
 def theorem_names(module):
+    """[(fully qualified theorem name)] of a module, following namespace/end blocks; private theorems are skipped."""
     path = os.path.join(LEAN, *module.split(".")) + ".lean"
     src = open(path).read()
     src_nc = re.sub(r"/-.*?-/", "", src, flags=re.S)
     src_nc = re.sub(r"--[^\n]*", "", src_nc)
-    names = re.findall(r"^\s*(?:protected\s+|private\s+)?theorem\s+([^\s:({\[]+)", src_nc, re.M)
-    ns = re.findall(r"^namespace\s+(\S+)", src_nc, re.M)
-    return names, (ns[0] if ns else ""), src_nc
+    stack = []
+    names = []
+    for line in src_nc.split("\n"):
+        m = re.match(r"^\s*namespace\s+(\S+)", line)
+        if m:
+            stack.append(m.group(1))
+            continue
+        m = re.match(r"^\s*end\s+(\S+)\s*$", line)
+        if m and stack and stack[-1] == m.group(1):
+            stack.pop()
+            continue
+        m = re.match(r"^\s*(?:@\[[^\]]*\]\s*)?(?:protected\s+)?theorem\s+([^\s:({\[]+)", line)
+        if m:
+            n = m.group(1)
+            if n.startswith("_root_."):
+                names.append(n[len("_root_."):])
+            else:
+                names.append(".".join(stack + [n]))
+    return names, "", src_nc
 
 
 FORBIDDEN = re.compile(r"\bsorry\b|\badmit\b|^\s*axiom\s|native_decide|bv_decide|implemented_by|\bunsafe\s|maxHeartbeats\s+0\b", re.M)
@@ -165,7 +182,7 @@ def audit(prop):
         if FORBIDDEN.search(src):
             res["bad"].append(f"{m}: forbidden construct ({FORBIDDEN.search(src).group(0).strip()})")
         for n in names:
-            full = n if (not ns or n.startswith(ns + ".")) else ns + "." + n
+            full = n
             allnames.append(full)
             if "partial" in n:
                 res["partial"].append(full)
@@ -188,7 +205,7 @@ def audit(prop):
     open(tmp, "w").write("\n".join(lines) + "\n")
     rc, out = sh(["lake", "env", "lean", tmp], cwd=LEAN, timeout=1200)
     seen = {}
-    for m in re.finditer(r"'([^']+)' (depends on axioms: \[([^\]]*)\]|does not depend on any axioms)", out):
+    for m in re.finditer(r"'(\S+)' (depends on axioms: \[([^\]]*)\]|does not depend on any axioms)", out):
         axs = [a.strip() for a in (m.group(3) or "").replace("\n", " ").split(",") if a.strip()]
         seen[m.group(1)] = axs
     for n in allnames:
